@@ -225,6 +225,7 @@ def encode_segment(seg, index_only=False):
         toc |= TOC_RAW
     if seg.get('interleaved'):
         toc |= TOC_INTERLEAVED
+    toc |= seg.get('toc_extra', 0)
     if be:
         toc |= TOC_BIGENDIAN
     daqmx_flag = seg.get('daqmx_flag')
